@@ -40,7 +40,7 @@ def _xy(rng, k, n=(14, 9), m=(7, 5), p=1, centred=False, wide=False):
     return X, (Y[:, 0].copy() if p == 1 else Y)
 
 
-def _selector(direction, cls, needs_y, extra=None, with_y=True):
+def _selector(direction, cls, needs_y, extra=None, with_y=True, n_form=3):
     def data(rng, k):
         X, y = _xy(rng, k)
         a = {"X": X}
@@ -57,7 +57,7 @@ def _selector(direction, cls, needs_y, extra=None, with_y=True):
         from skmatter import sample_selection as ss
 
         mod = fs if direction == "feature" else ss
-        kw = {"n_to_select": 3}
+        kw = {"n_to_select": n_form}
         if extra == "threshold":
             kw.update(n_to_select=5, score_threshold=1e-6, score_threshold_type="relative")
         if "init" in a:
@@ -79,7 +79,11 @@ def _selector(direction, cls, needs_y, extra=None, with_y=True):
             out["d"], out["sd"] = e.get_distance(), e.get_select_distance()
         return out
 
-    return dict(data=data, est=est, fit=fit, use=use, drop_y=(direction == "sample" and not needs_y and with_y))
+    def reject(e, a):
+        # a warm start of a never-fitted selector is refused (after the request has been resolved)
+        return e.fit(a["X"], a["y"], warm_start=True) if "y" in a else e.fit(a["X"], warm_start=True)
+
+    return dict(data=data, est=est, fit=fit, use=use, reject=reject, drop_y=(direction == "sample" and not needs_y and with_y))
 
 
 def _dch(low_form="list"):
@@ -212,6 +216,11 @@ def _skc():
 
 
 def _r2f(cvkind):
+    def _fit(e, a):
+        if cvkind == "global_seed":
+            np.random.seed(11)  # the caller seeds NumPy's global generator and leaves random_state=None
+        return e.fit(a["X"], a["Y"])
+
     def data(rng, k):
         X, Y = _xy(rng, k, p=2)
         a = {"X": X, "Y": Y, "alphas": np.array([1e-3, 0.1, 0.5])}
@@ -223,9 +232,9 @@ def _r2f(cvkind):
     def est(a):
         from skmatter.linear_model import Ridge2FoldCV
 
-        return Ridge2FoldCV(alphas=a["alphas"], alpha_type="relative", regularization_method="cutoff", cv=a.get("cv"), random_state=3, shuffle=True)
+        return Ridge2FoldCV(alphas=a["alphas"], alpha_type="relative", regularization_method="cutoff", cv=a.get("cv"), random_state=None if cvkind == "global_seed" else 3, shuffle=True)
 
-    return dict(data=data, est=est, fit=lambda e, a: e.fit(a["X"], a["Y"]), use=lambda e, a: {"P": e.predict(a["X"]), "cv": np.asarray(e.cv_values_), "alpha": e.alpha_})
+    return dict(data=data, est=est, fit=_fit, use=lambda e, a: {"P": e.predict(a["X"]), "cv": np.asarray(e.cv_values_), "alpha": e.alpha_})
 
 
 def _orth(projector):
@@ -313,6 +322,9 @@ SCENARIOS = {
     "feature.FPS(array init)": _selector("feature", "FPS", False, extra="array_init", with_y=False),
     "feature.PCovFPS": _selector("feature", "PCovFPS", True),
     "feature.CUR": _selector("feature", "CUR", False),
+    "feature.CUR(n_to_select=None)": _selector("feature", "CUR", False, n_form=None),
+    "feature.FPS(n_to_select=0.4)": _selector("feature", "FPS", False, with_y=False, n_form=0.4),
+    "sample.FPS(n_to_select=None)": _selector("sample", "FPS", False, with_y=False, n_form=None),
     "feature.CUR(threshold)": _selector("feature", "CUR", False, extra="threshold"),
     "sample.PCovCUR(threshold)": _selector("sample", "PCovCUR", True, extra="threshold"),
     "feature.PCovCUR": _selector("feature", "PCovCUR", True),
@@ -345,6 +357,7 @@ SCENARIOS = {
     # --- linear models
     "Ridge2FoldCV": _r2f("none"),
     "Ridge2FoldCV(cv pairs)": _r2f("pairs"),
+    "Ridge2FoldCV(random_state=None, seeded global generator)": _r2f("global_seed"),
     "OrthogonalRegression(projector)": _orth(True),
     "OrthogonalRegression(padded)": _orth(False),
     # --- neighbors / clustering
@@ -382,8 +395,8 @@ LAYOUTS = [(lay, ro, dt) for lay in ("C", "F", "strided") for ro in (False, True
 CASES = {"quick": len(NAMES) * 48, "thorough": len(NAMES) * 600}
 FLOOR = {"quick": len(NAMES) * 40, "thorough": len(NAMES) * 500}
 FLOOR_COUNTERS = {
-    "quick": {"purity_calls": 2000, "write_protected_calls": 900, "refits_compared": 1200, "param_guards": 1500, "repeat_pairs": 1500, "arrays_snapshotted": 6000, "guarded_public_calls": 20000},
-    "thorough": {"purity_calls": 25000, "write_protected_calls": 11000, "refits_compared": 15000, "param_guards": 19000, "repeat_pairs": 19000, "arrays_snapshotted": 75000, "guarded_public_calls": 250000},
+    "quick": {"purity_calls": 2000, "write_protected_calls": 900, "refits_compared": 1200, "param_guards": 1500, "repeat_pairs": 1500, "arrays_snapshotted": 6000, "guarded_public_calls": 20000, "rejected_calls_in_the_history": 600},
+    "thorough": {"purity_calls": 25000, "write_protected_calls": 11000, "refits_compared": 15000, "param_guards": 19000, "repeat_pairs": 19000, "arrays_snapshotted": 75000, "guarded_public_calls": 250000, "rejected_calls_in_the_history": 8000},
 }
 RULE = (
     f"case = one of {len(NAMES)} registry entries (every public estimator incl. constructor arguments, the 8 reconstruction "
@@ -606,6 +619,22 @@ def run(case, j):
         j.ok(f"refitted estimator behaves like a fresh one ({label})", d2 is None, d2)
         j.note("refits_compared")
 
+    if sc.get("reject"):
+        er = sc["est"](B)
+        hr0 = _hyper(er)
+        try:
+            sc["reject"](er, B)
+            j.note("calls_expected_to_be_rejected_that_were_accepted")
+        except Exception:  # noqa: BLE001
+            j.note("rejected_calls_in_the_history")
+            hr1 = _hyper(er)
+            dr = [k for k in hr0 if _eq(hr0[k], hr1.get(k), k)]
+            j.ok("a call that is refused leaves every constructor hyper-parameter unchanged", not dr, {"changed": dr, "before": brief({k: hr0.get(k) for k in dr}), "after": brief({k: hr1.get(k) for k in dr})})
+            sc["fit"](er, A)
+            fr = sc["est"](A)
+            sc["fit"](fr, A)
+            dd = _eq(rt.public_state(er), rt.public_state(fr), "state") or _eq(sc["use"](er, A), sc["use"](fr, A), "outputs")
+            j.ok("an estimator that was refused a call, then fitted, equals a fresh estimator fitted on the same data", dd is None, dd, "K3" if (k3 and dd and str(dd).startswith("state.new_dist_")) else None)
     if type(e).__name__ == "QuickShift" and "cuts" in A:
         pass  # per-point cut-offs are constructor data sized to the point set: a refit on another size needs a new object
     else:
